@@ -420,6 +420,7 @@ func runC07(t *testing.T, r *kit.Run) {
 
 	// process-level symptoms
 	s := &res.sim
+	r.Out.Trace = s.Trace
 	switch {
 	case len(s.Crashes) > 0:
 		r.Out.Violate(cls+"/crash", "%s: panic in library goroutine %s: %s", desc, s.Crashes[0].G, s.Crashes[0].Value)
